@@ -10,33 +10,38 @@ MaxSeq == 1000000        \* stands for 2^96 - 1: the recorder logs a sequence nu
 IncrementBeforeResult == FALSE
 CH == INSTANCE HpkeChannel
 Traces == JsonDeserialize(IOEnv.TRACE_FILE)
-VARIABLES t, l, st, bad, msgs
+VARIABLES t, l, st, bad, msgs, ksv
 Ok == <<0, "ok">>
 Zeros12(n) == [i \in 1..n |-> 0]
 RECURSIVE Be(_,_)
 Be(x, n) == IF n = 0 THEN <<>> ELSE Be(x \div 256, n - 1) \o <<x % 256>>
 Seq12(v) == IF v < 500000 THEN Zeros12(8) \o Be(v, 4) ELSE [i \in 1..11 |-> 255] \o <<255 - (MaxSeq - v)>>
 Ks(c) == LET ss == SharedSecret(c.dh, c.kemctx, c.kem) IN HpkeKeySchedule(c.mode, ss, c.info, c.psk, c.pskid, c.kem, c.aead)
-SetupVerdict(c) ==   \* run once per full trace, at the first event
+NoKs == [key |-> <<>>, nonce |-> <<>>, exp |-> <<>>]
+\* structural part, every trace: both parties build kem_context from the encapsulated key AS SENT / AS RECEIVED (RFC 9180 4.1)
+ContextVerdict(c) ==
    IF c.kemctx # c.enc \o c.pkR \o c.pkS THEN "kem_context is not enc || pkRm [|| pkSm]"
-   ELSE LET ks == Ks(c) IN
-        IF c.haskey /\ ks.key # c.key THEN "key differs from RFC 9180 KeySchedule"
+   ELSE IF c.hasrctx /\ c.rkemctx # c.renc \o c.rpkR \o c.rpkS THEN "the receiver's kem_context is not built from enc as received"
+   ELSE "ok"
+SetupVerdict(c, ks) ==   \* run once per full trace, at the first event
+   IF ContextVerdict(c) # "ok" THEN ContextVerdict(c)
+   ELSE IF c.haskey /\ ks.key # c.key THEN "key differs from RFC 9180 KeySchedule"
         ELSE IF c.haskey /\ ks.nonce # c.basenonce THEN "base_nonce differs from RFC 9180 KeySchedule"
         ELSE IF c.haskey /\ ks.exp # c.expsecret THEN "exporter_secret differs from RFC 9180 KeySchedule"
         ELSE "ok"
 \* ---- one step
-StepVerdict(tr, s, s2, e) ==
+StepVerdict(tr, s, s2, e, ks) ==
    LET c == tr.cfg IN
    IF e.op = "preset" THEN "ok"
    ELSE IF e.op = "seal" THEN
         IF e.exc # s2.exc THEN "seal: exception class: model " \o s2.exc \o ", implementation " \o e.exc
         ELSE IF e.hasproj /\ e.seq # s2.sseq THEN "seal: sequence number after the call"
         ELSE IF e.exc = "none" /\ Len(e.ct) # Len(e.pt) + 16 THEN "seal: ciphertext length"
-        ELSE IF e.exc = "none" /\ c.full /\ e.ct # SealAt(Ks(c), c.aead, Seq12(s.sseq), e.aad, e.pt) THEN "seal: ciphertext differs from RFC 9180 Seal at this sequence number"
+        ELSE IF e.exc = "none" /\ c.full /\ e.ct # SealAt(ks, c.aead, Seq12(s.sseq), e.aad, e.pt) THEN "seal: ciphertext differs from RFC 9180 Seal at this sequence number"
         ELSE "ok"
    ELSE \* unseal: for full traces on a matching receiver the exact AEAD verdict replaces the ideal one
         LET exact == c.full /\ c.mismatch = "none" /\ s.rseq < MaxSeq /\ e.mut # "short"
-            r == IF exact THEN OpenAt(Ks(c), c.aead, Seq12(s.rseq), e.aad, e.ct) ELSE <<"?", <<>>>>
+            r == IF exact THEN OpenAt(ks, c.aead, Seq12(s.rseq), e.aad, e.ct) ELSE <<"?", <<>>>>
             expExc == IF exact THEN (IF r[1] = "ok" THEN "none" ELSE "ValueError") ELSE s2.exc
         IN IF exact /\ (r[1] = "ok") # (s2.exc = "none") THEN "harness: ideal and exact AEAD verdicts differ"
            ELSE IF e.exc # expExc THEN "unseal: exception class: specification " \o expExc \o ", implementation " \o e.exc
@@ -56,23 +61,25 @@ SetupExpected(d) ==
    ELSE IF d.enc \in {"short", "long", "empty", "lowx", "zero"} THEN "ValueError"
    ELSE "none"
 InitOf(tr) == CH!HInit(IF tr.family = "hpke" THEN tr.cfg.mismatch = "none" ELSE TRUE)
-TInit == t = 1 /\ l = 1 /\ st = InitOf(Traces[1]) /\ bad = Ok /\ msgs = <<>>
+TInit == t = 1 /\ l = 1 /\ st = InitOf(Traces[1]) /\ bad = Ok /\ msgs = <<>> /\ ksv = NoKs
 TNext == /\ t <= Len(Traces)
          /\ LET tr == Traces[t] IN
             IF l > Len(tr.events) THEN
                /\ PrintT(<<"VERDICT", tr.tid, bad[1], bad[2]>>)
-               /\ t' = t + 1 /\ l' = 1 /\ bad' = Ok /\ msgs' = <<>>
+               /\ t' = t + 1 /\ l' = 1 /\ bad' = Ok /\ msgs' = <<>> /\ ksv' = NoKs
                /\ st' = IF t + 1 <= Len(Traces) THEN InitOf(Traces[t + 1]) ELSE st
             ELSE LET e == tr.events[l] IN
                  IF tr.family = "hpke-setup" THEN
                       LET x == SetupExpected(e.desc)
                           v == IF e.exc = x THEN "ok" ELSE "set-up: specification " \o x \o ", implementation " \o e.exc
                       IN /\ bad' = IF bad = Ok /\ v # "ok" THEN <<l, v>> ELSE bad
-                         /\ l' = l + 1 /\ UNCHANGED <<t, st, msgs>>
+                         /\ l' = l + 1 /\ UNCHANGED <<t, st, msgs, ksv>>
                  ELSE LET s2 == CH!HStep(st, e)
-                          v0 == IF l = 1 /\ tr.cfg.full THEN SetupVerdict(tr.cfg) ELSE "ok"
-                          v == IF v0 # "ok" THEN v0 ELSE StepVerdict(tr, st, s2, e)
-                      IN /\ st' = s2 /\ l' = l + 1 /\ t' = t
+                          \* the key schedule is evaluated once per trace and carried in the state
+                          ks == IF l = 1 THEN (IF tr.cfg.full THEN Ks(tr.cfg) ELSE NoKs) ELSE ksv
+                          v0 == IF l # 1 THEN "ok" ELSE IF tr.cfg.full THEN SetupVerdict(tr.cfg, ks) ELSE ContextVerdict(tr.cfg)
+                          v == IF v0 # "ok" THEN v0 ELSE StepVerdict(tr, st, s2, e, ks)
+                      IN /\ st' = s2 /\ l' = l + 1 /\ t' = t /\ ksv' = ks
                          /\ msgs' = IF e.op = "seal" /\ s2.exc = "none" THEN Append(msgs, e.pt) ELSE msgs
                          /\ bad' = IF bad = Ok /\ v # "ok" THEN <<l, v>> ELSE bad
 =============================================================================
